@@ -28,3 +28,114 @@ Proof.
     rewrite <- (rows_ids _ 0) in Hm. apply (Permutation_in _ (Permutation_map r_id P)) in Hm.
     rewrite map_app, rows_ids, rows_t_ids in Hm. apply in_app_or in Hm. destruct Hm as [[<-|[]]|Hm]; [right; cbn [rid]; lia|now left].
 Qed.
+
+Theorem WFw_op_shortcut w ti n how d explicit k : WFw w -> WFw (snd (op_shortcut w ti n how d explicit k)).
+Proof.
+  intros H. unfold op_shortcut. destruct (get_tree w ti) as [t|]; [|exact H].
+  destruct how.
+  - now apply WFw_op_add.
+  - destruct (children_of n (forest_of t)) as [[|c l]|]; [now apply WFw_op_add|now apply WFw_op_add|exact H].
+  - destruct (parent_of n (forest_of t)); [|exact H]. destruct (get_node n (forest_of t)); [|exact H]. now apply WFw_op_add.
+  - destruct (parent_of n (forest_of t)); [|exact H]. destruct (node_loc n (forest_of t)) as [[[q0 i] l]|]; [|exact H].
+    destruct (get_node n (forest_of t)); [|exact H]. now apply WFw_op_add.
+Qed.
+
+(* ---- removal ---- *)
+Lemma detach_spec n f s f1 : detach n f = Some (s, f1) ->
+  exists q0 a b, get_ch q0 f = Some (a ++ s :: b) /\ f1 = upd_ch q0 (fun _ => a ++ b) f /\ rid s = n /\ In s (pre_f f).
+Proof.
+  unfold detach. destruct (node_loc n f) as [[[q0 i] l]|] eqn:E; [|discriminate].
+  destruct (node_loc_spec n f q0 i l E) as (G & s' & N & R & _ & P).
+  rewrite N. intros X. injection X as <- <-.
+  destruct (nth_error_split l i N) as (a & b & -> & <-). exists q0, a, b. repeat split; try assumption.
+  rewrite (upd_ch_const q0 f _ _ G). now rewrite remove_nth_split.
+Qed.
+
+Lemma WF_remove_branch t n t' : WF t -> remove_branch t n = Some t' ->
+  WF t' /\ exists s, In s (pre_f (forest_of t)) /\ rid s = n /\
+                     Permutation (ids (forest_of t)) (ids_t s ++ ids (forest_of t')).
+Proof.
+  intros H. unfold remove_branch. destruct (detach n (forest_of t)) as [[s f1]|] eqn:E; [|discriminate].
+  destruct (detach_spec n _ s f1 E) as (q0 & a & b & G & -> & R & P).
+  rewrite unregister_all_eq. intros X. injection X as <-.
+  destruct (WF_cut t q0 a [s] b H G) as (W1 & W2). cbn [flat_map] in W1. rewrite app_nil_r in W1.
+  split; [exact W1|]. exists s. repeat split; try assumption. cbn [forest_of set_all].
+  replace (ids_t s) with (ids [s]) by (unfold ids, ids_t; cbn; now rewrite app_nil_r). exact W2.
+Qed.
+
+Lemma keep_collides_spec t n q0 a s b : NoDup (ids (forest_of t)) ->
+  node_loc n (forest_of t) = Some (q0, length a, a ++ s :: b) -> keep_collides t n = false ->
+  forall c o, In c (rch s) -> In o (a ++ b) -> rdid o <> rdid c.
+Proof.
+  intros ND E K c o Hc Ho Ed. unfold keep_collides in K. rewrite E, nth_error_app_len in K.
+  destruct (node_loc_spec n _ _ _ _ E) as (G & s' & N & R & _). rewrite nth_error_app_len in N. injection N as <-.
+  assert (X : existsb (fun c => existsb (fun o => negb (Nat.eqb (rid o) n) && did_eqb (rdid o) (rdid c)) (a ++ s :: b)) (rch s) = true).
+  { apply existsb_exists. exists c. split; [assumption|]. apply existsb_exists. exists o. split.
+    - apply in_app_or in Ho. apply in_or_app. destruct Ho; [now left|right; now right].
+    - apply andb_true_iff. split; [|now apply did_eqb_eq]. apply negb_true_iff, Nat.eqb_neq. intros Y.
+      assert (NL := NoDup_ids_top _ (NoDup_child_list q0 _ _ ND G)). rewrite map_app in NL. cbn [map] in NL.
+      apply NoDup_remove_2 in NL. apply NL. rewrite <- map_app. rewrite R, <- Y. now apply in_map. }
+  congruence.
+Qed.
+
+Lemma WF_remove_keep t n t' : WF t -> keep_collides t n = false -> remove_keep t n = Some t' ->
+  WF t' /\ Permutation (ids (forest_of t)) (n :: ids (forest_of t')).
+Proof.
+  intros H K. unfold remove_keep. destruct (node_loc n (forest_of t)) as [[[q0 i] l]|] eqn:E; [|discriminate].
+  destruct (node_loc_spec n _ q0 i l E) as (G & s & N & R & _ & P). rewrite N.
+  destruct (nth_error_split l i N) as (a & b & -> & <-).
+  assert (Hf : upd_ch q0 (fun l => firstn (length a) l ++ rch s ++ skipn (S (length a)) l) (forest_of t)
+               = upd_ch q0 (fun _ => a ++ rch s ++ b) (forest_of t)).
+  { rewrite (upd_ch_const q0 _ _ _ G). destruct (firstn_skipn_split a s b) as [E1 E2]. now rewrite E1, E2. }
+  rewrite Hf. intros X. injection X as <-.
+  destruct (WF_splice t q0 a s b H G) as (W1 & W2).
+  - apply (keep_collides_spec t n q0 a s b); [apply H|assumption|assumption].
+  - rewrite <- R. split; assumption.
+Qed.
+
+Lemma remove_fold_branch victims : forall t, WF t ->
+  let t' := fold_left (fun acc v => if live acc v
+                                     then match remove_one acc v false with Some a => a | None => acc end
+                                     else acc) victims t in
+  WF t' /\ incl (ids (forest_of t')) (ids (forest_of t)).
+Proof.
+  induction victims as [|v vs IH]; intros t H; cbn [fold_left]; [split; [assumption|apply incl_refl]|].
+  destruct (live t v); [|now apply IH]. cbn [remove_one].
+  destruct (remove_branch t v) as [a|] eqn:E; [|now apply IH].
+  destruct (WF_remove_branch t v a H E) as (Wa & s & _ & _ & P). destruct (IH a Wa) as (W' & I').
+  split; [assumption|]. intros m Hm. apply I' in Hm. apply (Permutation_in _ (Permutation_sym P)). apply in_or_app. now right.
+Qed.
+
+(* remove(), except the combination keep_children + with_clones (see
+   [op_remove_keep_clones_refuted] in Properties/C01.v) *)
+Theorem WFw_op_remove w ti n keep wc : WFw w -> keep && wc = false -> WFw (snd (op_remove w ti n keep wc)).
+Proof.
+  intros H Hk. unfold op_remove. destruct (get_tree w ti) as [t|] eqn:Gt; [|exact H].
+  destruct (did_of n (forest_of t)) as [d|]; [|exact H].
+  assert (Wt := WFw_tree w ti t H Gt).
+  match goal with |- context [if ?c then (Err ENotImpl, w) else _] => destruct c end; [exact H|].
+  match goal with |- context [if ?c then (Err EUnique, w) else _] => destruct c eqn:Col end; [exact H|].
+  cbn [snd]. unfold put_tree. destruct keep.
+  - cbn [andb] in Hk. subst wc. cbn [andb] in Col. cbn [existsb] in Col. rewrite orb_false_r in Col.
+    cbn [fold_left]. destruct (live t n).
+    + cbn [remove_one]. destruct (remove_keep t n) as [a|] eqn:E.
+      * destruct (WF_remove_keep t n a Wt Col E) as (Wa & P). apply (WFw_put w ti t); auto.
+        intros m Hm. left. apply (Permutation_in _ (Permutation_sym P)). now right.
+      * apply (WFw_put w ti t); auto.
+    + apply (WFw_put w ti t); auto.
+  - match goal with |- context [fold_left ?f ?vs t] => destruct (remove_fold_branch vs t Wt) as (W' & I') end.
+    apply (WFw_put w ti t); auto.
+Qed.
+
+Theorem WFw_op_remove_children w ti n : WFw w -> WFw (snd (op_remove_children w ti n)).
+Proof.
+  intros H. unfold op_remove_children. destruct (get_tree w ti) as [t|] eqn:Gt; [|exact H].
+  destruct (parent_path n (forest_of t)) as [pq|]; [|exact H].
+  destruct (get_ch pq (forest_of t)) as [ch|] eqn:G; [|exact H].
+  rewrite unregister_all_eq. cbn [snd]. unfold put_tree.
+  assert (Wt := WFw_tree w ti t H Gt).
+  assert (G' : get_ch pq (forest_of t) = Some ([] ++ ch ++ [])) by (now rewrite app_nil_r).
+  destruct (WF_cut t pq [] ch [] Wt G') as (W1 & W2). cbn [app] in W1, W2.
+  apply (WFw_put w ti t); auto.
+  intros m Hm. left. apply (Permutation_in _ (Permutation_sym W2)). apply in_or_app. now right.
+Qed.
